@@ -3,14 +3,15 @@ Require Import Value Bytes MbiMixinModel GenMbi MbiModel MbiProofs MbiRtProofs.
 Import ListNotations.
 Local Open Scope Z_scope.
 
-(* C01, plain and CRC classes with a duplicate-free mixin list: the number of bytes emitted is total_len (the sum of
-   mix_len over the mixin list), and the header words of the emitted image say so: word 0x20 = emitted length (0 by design
-   for the IvtZeroTotalLength classes), word 0x24 = create_flags, word 0x34 = load address. *)
+(* C01, plain and CRC classes with a duplicate-free mixin list (with or without relocation table): the number of bytes
+   emitted is total_len (the sum of mix_len over the mixin list), and the header words of the emitted image say so:
+   word 0x20 = emitted length (0 by design for the IvtZeroTotalLength classes), word 0x24 = create_flags,
+   word 0x34 = load address. *)
 Theorem len_is_sum_plain_crc :
   forall (k : crypto) (c : mbi_class) (x : mbi) (im : list N),
     wf_plain_crc c = true -> nodupb (c_mixins c) = true ->
     (has c MixinTrustZone && has c MixinTrustZoneMandatory) = false ->
-    (56 <= length (m_app x))%nat -> m_table x = None ->
+    (56 <= length (m_app x))%nat ->
     export_mbi k c x = Ok im ->
     zlen im = total_len c x /\
     rd32 OFF_LEN im = (match provider c SUpdateIvt with Some MixinIvtZeroTotalLength => 0 | _ => zlen im end) /\
